@@ -28,6 +28,8 @@ def levels(tier):
             {"name": "n1", "pools": pools, "sparse": True, "n": 1, "alphabet": alpha, "backends": ["file", "memory"], "links_batch": 2},
             {"name": "n2", "pools": pools, "sparse": True, "n": 2, "alphabet": ["page", "links", "we"], "backends": ["file"], "links_batch": 1},
             {"name": "clear-n3", "pools": [[[1], [1, 1], [2]]], "n": 3, "alphabet": ["page", "links", "clear"], "backends": ["file", "memory"], "links_batch": 1},
+            {"name": "restarts", "pools": [[[1], [1], [1], [1]]], "n": 1, "backends": ["file"], "alphabet": ["page", "links"], "links_batch": 1,
+             "prelude": [["links", [[0, 1]]], ["reopen"], ["page", 2, False], ["page", 3, False], ["reopen"]]},
             {"name": "batch-n1", "pools": [[[1], [1, 1], [2]]], "n": 1, "alphabet": ["batch"], "batch_sources": 2, "batch_targets": 2,
              "backends": ["memory"], "yield_frequencies": [50, 1]},
         ]
@@ -98,15 +100,22 @@ def harness(E):
     shape = [len(x) for x in L]
     pool = plain_pool(E, shape, L, sparse=P.get("sparse", False))
     backend = P["backends"][E.choose("backend", len(P["backends"]))]
-    t = open_index(E, backend, default_webentity_creation_rule=NEVER, webentity_creation_rules={})
+    opts = dict(P)
+    if backend == "memory":
+        t = E.Traph(folder=None, default_webentity_creation_rule=NEVER, webentity_creation_rules={})
+    else:
+        opts["folder"] = E.fresh_folder("idx")
+        t = E.Traph(folder=opts["folder"], default_webentity_creation_rule=NEVER, webentity_creation_rules={})
     ref = Ref()
-    h = History(E, t, ref, pool, P["alphabet"], P)
+    h = History(E, t, ref, pool, P["alphabet"], opts)
+    h.prelude(P.get("prelude"))
     seen = 0
     for i in range(P["n"]):
         before = len(ref.known)
         kind, info = h.step(i)
+        t = h.t
         if len(ref.known) == before and i > 0:
             E.reach("resubmission")
         account(E, t, ref)
     if backend != "memory":
-        t.close()
+        h.t.close()
